@@ -1,6 +1,7 @@
 #!/bin/sh
 # tools/seed_run_copy.sh <seed-id> <prop>...: like seed_run.sh but on the scratch checkout $COPY (default /tmp/repo_head),
 # for use while /repo itself is busy.  The checkout is restored afterwards.
+export PYVC_EVIDENCE_DIR=${PYVC_EVIDENCE_DIR:-/tmp/pyvc_evidence_scratch}   # runs on modified trees never overwrite /verif/evidence
 COPY=${COPY:-/tmp/repo_head}
 S=$1; shift
 git -C $COPY apply ${SEEDS:-/verif/seeded}/$S/patch.diff 2>/dev/null || { echo "$S: patch failed"; exit 3; }
